@@ -41,6 +41,11 @@ pub open spec fn get_u64<T: Tag>(h: Header<T>, tag: u32) -> Option<u64> {
     }
 }
 impl<T: Tag> Header<T> {
+    /// K:k_entry_is_present
+    #[verifier::external_body]
+    pub fn entry_is_present(&self, tag: T) -> (r: bool)
+        ensures r == (entry_of(*self, tag.spec_to_u32()) is Some),
+    { unimplemented!() }
     #[verifier::external_body]
     pub fn get_entry_data_as_binary(&self, tag: T) -> (r: Result<&[u8], Error>)
         ensures match get_bin(*self, tag.spec_to_u32()) { Some(d) => r is Ok && r->Ok_0@ == d, None => r is Err },
